@@ -14,6 +14,7 @@ import (
 	"time"
 
 	"github.com/markusressel/fan2go/internal"
+	"github.com/prometheus/client_golang/prometheus"
 	"github.com/markusressel/fan2go/internal/configuration"
 	"github.com/markusressel/fan2go/internal/sensors"
 	"github.com/markusressel/fan2go/internal/verifhook"
@@ -105,6 +106,42 @@ func init() {
 		switch op {
 		case "sn.monitor":
 			return snMonitor(a)
+		case "sn.init":
+			// start-up: the REAL initializeSensors creates the (cmd) sensor, reads it once and seeds the moving average
+			if sensorDirBase == "" {
+				d, err := os.MkdirTemp("", "verifsensor")
+				if err != nil {
+					panic(err)
+				}
+				sensorDirBase = d
+				cleanups = append(cleanups, func() { os.RemoveAll(d) })
+			}
+			sensorCounter++
+			dir := fmt.Sprintf("%s/i%d", sensorDirBase, sensorCounter)
+			_ = os.MkdirAll(dir, 0755)
+			defer os.RemoveAll(dir)
+			out, _ := base64.StdEncoding.DecodeString(a.str("out", ""))
+			_ = os.WriteFile(dir+"/out.txt", out, 0644)
+			script := dir + "/sensor.sh"
+			body := fmt.Sprintf("#!/bin/sh\ncat %s/out.txt\nexit %d\n", dir, a.int("exit", 0))
+			if err := os.WriteFile(script, []byte(body), 0755); err != nil {
+				panic(err)
+			}
+			id := fmt.Sprintf("init%d", sensorCounter)
+			saved := configuration.CurrentConfig.Sensors
+			configuration.CurrentConfig.Sensors = []configuration.SensorConfig{{ID: id, Cmd: &configuration.CmdSensorConfig{Exec: script}}}
+			defer func() { configuration.CurrentConfig.Sensors = saved }()
+			savedReg := prometheus.DefaultRegisterer
+			prometheus.DefaultRegisterer = prometheus.NewRegistry()
+			defer func() { prometheus.DefaultRegisterer = savedReg }()
+			if err := internal.VerifInitializeSensors(nil); err != nil {
+				return "err"
+			}
+			sn, ok := sensors.GetSensor(id)
+			if !ok {
+				return "ok avg=<unregistered>"
+			}
+			return "ok avg=" + fmtF(sn.GetMovingAvg())
 		case "sn.new":
 			if sensorDirBase == "" {
 				d, err := os.MkdirTemp("", "verifsensor")
